@@ -684,8 +684,8 @@ T = {
  "C10-7": dict(
     change="x/leveragelp/keeper/msg_server_close_positions.go ClosePositions: each amm pool is read once per request; later stop-loss entries are judged on the LP price from before the earlier closes of the same request",
     needs="one MsgClosePositions naming two positions of one pool: the earlier one really closes (the LP price rises), the later one has a stop loss between the stale and the true price",
-    caught_by="NOT CAUGHT",
-    history="MISSED, and still missed: mode c10 predicts prices once per request; judging the second entry needs the price after the first entry's close (a sequential prediction inside one request), which was not built. The same class of change in the begin-block sweep (C10-5) is caught by the directed sweep pairs"),
+    caught_by="C10.third_party_close in mode c10 (directed pair inside one request)",
+    history="MISSED at first (mode c10 predicted prices once per request); a directed pair added for worlds with the sweep off: the first entry is made liquidatable, its close is run alone on a discarded copy to learn the price it leaves, the second entry's stop loss is put between the two prices, and — when the first entry really closed — the second is judged at the price after it; caught since"),
  "C12-7": dict(
     change="x/amm/keeper/pool_share.go MintPoolShareToAccount: no new lock-up entry when one with a later unlock time exists already",
     needs="the same address joining an oracle pool twice at the same block time (or a leveraged open followed by a consolidating open), then exiting the second deposit within the hour",
